@@ -19,15 +19,75 @@ EXPLANATION = (
     "rainfall_partition's returns with no redefinition in between, rainfall_partition's rain argument is the "
     "precipitation of the day's weather row, and the irrigation depth / efficiency arguments are irrigation's return and "
     "IrrMngt.AppEff. Together: Infl_col + Runoff_col = P + Irr*AppEff/100 over the reals (assumption A-2). C02.b: with "
-    "growing_season=False the irrigation term is absent. C02.e (necessary for the runoff bound): every depth <-> water-content conversion of infiltration uses the thickness of the compartment whose content the statement handles (1000*dz[k] directly, through an alias, or through a local holding the thickness in mm) - water backed up to the surface is runoff, and with another compartment's thickness more (or less) runs off than was taken out. C02.f (= C03.b): every store to the ponding depth - initial conditions, season reset, infiltration, evaporation, transpiration - is the literal 0, under a test of the bund switch, or a guarded decrease: without bunds nothing is ponded, so no ponded water is released as runoff / negative infiltration on a day without bund removal. NOT decided: non-negativity / upper bound of runoff, sign of "
+    "growing_season=False the irrigation term is absent. C02.e (necessary for the runoff bound): every depth <-> water-content conversion of infiltration uses the thickness of the compartment whose content the statement handles (1000*dz[k] directly, through an alias, or through a local holding the thickness in mm) - water backed up to the surface is runoff, and with another compartment's thickness more (or less) runs off than was taken out. C02.f (= C03.b): every store to the ponding depth - initial conditions, season reset, infiltration, evaporation, transpiration - is the literal 0, under a test of the bund switch, or a guarded decrease: without bunds nothing is ponded, so no ponded water is released as runoff / negative infiltration on a day without bund removal. C02.g (must-pass-through): every path from the entry of infiltration to any return passes the bunds-present branch or the release of the ponded water in the no-bunds block (an early 'nothing to infiltrate' return would keep the pond of bunds removed on a rainless day); an additional return must hand back the main return's locals. NOT decided: non-negativity / upper bound of runoff, sign of "
     "infiltration on bund removal, zero-in => zero-out (numeric).")
 
 
 def _ret(fi):
-    r = [n for n in walk_no_nested(fi.node) if isinstance(n, ast.Return)]
-    if len(r) != 1 or not isinstance(r[0].value, ast.Tuple):
-        raise AnalysisError(f"{fi.qualname}: expected a single tuple return")
-    return r[0]
+    """the function's main return: the last one in the source (earlier ones are early exits, judged by C02.g)"""
+    r = sorted((n for n in walk_no_nested(fi.node) if isinstance(n, ast.Return)), key=lambda n: (n.lineno, n.col_offset))
+    if not r or not isinstance(r[-1].value, ast.Tuple):
+        raise AnalysisError(f"{fi.qualname}: expected a tuple return")
+    return r[-1]
+
+
+def rule_g(chk, prog, inf):
+    """C02.g (ponded water is released on the day the bunds go; must-pass-through on the CFG of infiltration): every path from the entry to
+    ANY return passes either the bunds-present branch (both tests of the bund switch and height True) or the release pair of the
+    no-bunds block (`<ponding> = 0` with the ponded water added to the runoff). An early return - a shortcut for "nothing to infiltrate" -
+    that leaves before that block keeps yesterday's pond on a field whose bunds were removed; it is dumped as runoff (negative infiltration)
+    on a later day. A second return must also hand back the very locals of the main return (the conservation identity C02.a is
+    established there)."""
+    from ..rdef import flow_of
+    flow = flow_of(inf)
+    cfg = flow.cfg
+    where = f"{inf.module}:{inf.qualname}"
+    main = _ret(inf)
+    bund_formals = [p for p in inf.params if "bund" in p.lower()]
+    sw = next((p for p in bund_formals if "zbund" not in p.lower().replace("_", "")), None)
+    zb = next((p for p in bund_formals if "zbund" in p.lower().replace("_", "")), None)
+    pond = main.value.elts[1].id if isinstance(main.value.elts[1], ast.Name) else None
+    if not (sw and zb and pond):
+        raise AnalysisError("infiltration: bund switch / bund height formals or the returned ponding local not found")
+    release = {n.id for n in cfg.live_nodes() if isinstance(n.ast, ast.Assign) and norm(n.ast.targets[0]) == pond and isinstance(n.ast.value, ast.Constant)
+               and n.ast.value.value == 0 and any(cfg.nodes[t].kind == "test" and any(isinstance(x, ast.Name) and x.id in (sw, zb) for x in ast.walk(cfg.nodes[t].ast))
+                                                  for t, _ in cfg.transitive_control_deps(n.id))
+               and not any(cfg.nodes[t].kind == "test" and isinstance(cfg.nodes[t].ast, ast.Compare) and norm(cfg.nodes[t].ast.left) != zb
+                           and any(isinstance(x, ast.Name) and x.id not in (sw, zb) for x in ast.walk(cfg.nodes[t].ast)) for t, _ in cfg.control_deps().get(n.id, ()))}
+    present = {s_ for n in cfg.live_nodes() if n.kind == "test" and isinstance(n.ast, ast.Compare) and norm(n.ast.left) == zb and isinstance(n.ast.ops[0], (ast.Gt, ast.GtE))
+               and any(cfg.nodes[t].kind == "test" and norm(cfg.nodes[t].ast) == sw and l is True for t, l in cfg.transitive_control_deps(n.id))
+               for s_, l_ in n.succs if l_ is True}
+    if not release or not present:
+        raise AnalysisError("infiltration: the no-bunds release store / the bunds-present branch not found")
+    rets = [n for n in cfg.live_nodes() if isinstance(n.ast, ast.Return)]
+    # the False edge of `height <= limit` is taken only with bunds of sufficient height, i.e. after the True edge of `height > limit`
+    # (the bunds-present branch): on a path that avoids that branch it is infeasible
+    infeasible = {(n.id, False) for n in cfg.live_nodes() if n.kind == "test" and isinstance(n.ast, ast.Compare) and norm(n.ast.left) == zb
+                  and isinstance(n.ast.ops[0], (ast.LtE, ast.Lt))}
+
+    def leaks(dst):
+        seen, stack = set(), [cfg.entry]
+        while stack:
+            k = stack.pop()
+            if k in seen or k in release or k in present:
+                continue
+            if k == dst:
+                return True
+            seen.add(k)
+            stack.extend(t for t, l in cfg.nodes[k].succs if (k, l) not in infeasible)
+        return False
+    for r in rets:
+        construct = f"return at {norm(r.ast)[:70]}"
+        if leaks(r.id):
+            chk.violation("C02.g", where, construct, "a path from the entry reaches this return without passing the bunds-present branch or the release of the ponded water "
+                          "(`ponding = 0`, pond added to the runoff): water left behind bunds removed on a rainless day stays on the field and is released as "
+                          "runoff with negative infiltration on a later day", loc=inf.loc(r.ast))
+        elif r.ast is not main and norm(r.ast.value) != norm(main.value):
+            chk.violation("C02.g", where, construct, "an additional return hands back other values than the main return, for which alone the conservation identity is established",
+                          loc=inf.loc(r.ast))
+        else:
+            chk.ok("C02.g", where, construct, "only through the bunds-present branch or the release of the ponded water")
+    chk.floor("C02.g", len(rets), 1, "returns of infiltration")
 
 
 def _inf_locals(prog, inf, step, c_inf, rp_pos):
@@ -312,6 +372,7 @@ def run(chk, prog, tier):
     ponding_without_bunds(Alias(chk, {"C03.b": "C02.f", "C03.g": "C02.f"}), prog)
     # ---- C02.e thickness agreement inside infiltration (T-THICK, shared with C01.f): the water backed up to the surface becomes runoff; it
     # is the water actually taken out of a compartment only if the content difference is converted with that compartment's own thickness
+    rule_g(chk, prog, inf)
     from . import _thick
     n_thick = _thick.scan(chk, prog, "C02.e", [inf.key])
     chk.floor("C02.e", n_thick, 7, "depth <-> water-content conversion sites of infiltration")
